@@ -1,8 +1,30 @@
-HOOK_COMMITS = ["dee96d4", "bf7d115", "076d5ac", "5deb938"]
+import subprocess
+def _hook_commits():
+    try:
+        out = subprocess.check_output(["git", "-C", "/repo", "log", "--format=%h %s"], text=True)
+        return [l.split()[0] for l in out.splitlines() if " verif hooks:" in " " + l][::-1]
+    except Exception:
+        return []
+HOOK_COMMITS = _hook_commits()
 
 NOT_APPLICABLE = {}
 
 META = {
+    "C05": {
+        "technique": "Lean 4 theorem (deadlock-freedom and invariant preservation of disciplined lock programs under every schedule) + kernel-evaluated discipline obligations over lock programs regenerated from the Go source + watchdog replays",
+        "text": "Kernel-checked general theorem: threads whose lock programs obey the discipline (acquire only when nothing is held, every acquisition released, Lock = announce;acquire) can always make progress or have all finished, at every state reachable under every schedule, with Go's writer-preferring RWMutex semantics (C05_deadlock_free, C05_invariant); the shape removed by fix D1 (re-entrant RLock + writer) provably deadlocks (C05_reentrant_rlock_deadlocks). That the code base obeys the discipline is re-established on every run: the extractor type-checks /repo and regenerates the lock program of every function touching a mutex/errgroup/Once (and callers), and five obligations over that data are kernel-evaluated (balanced on every path, at most one lock held, no acquisition under a lock through static calls, no lock across Wait/Once, dynamic calls under lock pinned). Real runs under a watchdog (TypeInfos Get/Put stress; GenProto+GenConf with good/broken refers, repeated calls) are judged by 'the call returned'.",
+        "note": "Partial by nature: the Go scheduler/memory model are abstracted as arbitrary interleavings of lock events; data-race freedom of unlocked accesses is not proved (no lockset theorem yet); interface/func-value calls are pinned, not analysed. Trusted: Lean kernel, extractor (go/packages), harness.",
+    },
+    "C20": {
+        "technique": "Lean 4 theorems (fixed-offset locations: stored instant shows the wall clock; first-guess finality inside a zone interval) + differential correspondence over real zone tables + independent 'location shows wall clock' oracle",
+        "text": "Kernel-checked: in every single-offset location (UTC, fixed offsets) and for every wall clock the computed instant is wall-as-UTC minus the offset and the location shows exactly that wall clock at it (C20_fixed_offset, C20_fixed_offset_shows, C20_utc); in any transition table the first guess is final when it lands inside the interval found (C20_inside_interval). The model (layout choice, yyyyMMdd rewrite, Go layout parsing, two-guess zone lookup, Timestamp validity) is tied to the code by a differential stream over 20 IANA zones (half-hour, 45-minute, DST, date-line) with wall clocks at every transition ± hours in all three spellings; an independent oracle (read the clock at the stored instant: offset in force + civil-from-days) judges every implementation result.",
+        "note": "Trusted: Lean kernel; Go's time package and zone database (tables are re-read from it on every run); model as far as the stream checks it. Partial: DST correctness is decided by the oracle on the enumerated transitions, not by a theorem; durations and EmitTimezones output are not covered yet.",
+    },
+    "C12": {
+        "technique": "Lean 4 theorem (accepts iff member of the denoted range, for all bounds and values) + differential correspondence + Lean oracle",
+        "text": "Kernel-checked: for every numeric/string-length kind, every well-formed range text (open ends, equal bounds, int64/uint64 extremes) and every value, the range check accepts iff the value lies in the denoted set and otherwise reports E2004 (C12_range_iff); it never panics whatever the text (C12_range_total, true since fix D4); no range means no error; sequence and size helpers characterised. Tied to fieldprop.CheckInRange by boundary-table/random differential stream; an independent denotational reading of the range text judges every implementation answer.",
+        "note": "Trusted: Lean kernel; model as far as streams check it. Partial: float ranges, unique/refer/contiguity/duplicate-column constraints are not covered by theorems yet.",
+    },
     "C13": {
         "technique": "Lean 4 theorems (algebraic laws of the patch function: identity, frame, per-field determination, order-independence, replace) + differential correspondence + independent field-by-field Lean spec as oracle",
         "text": "Kernel-checked laws of the modelled patch at any nesting depth and for every message: empty patch is the identity (C13_identity); fields unpopulated in the patch are unchanged (C13_frame); each populated field's result is determined by its own step alone (C13_field) hence independent of Range's enumeration order (C13_order_independent, all permutations); scalars overwrite, list elements append, PATCH_REPLACE makes dst's old value irrelevant (C13_scalar/C13_list/C13_replace/C13_replace_eq_from_empty). The model is tied to xproto.PatchMessage by a differential stream over generated schemas (all kinds, cardinalities, presence, PATCH_REPLACE placements, nesting) and an independently written field-by-field specification judges every implementation result.",
